@@ -489,6 +489,48 @@ def keyfn(rec):
     return "txflow:%s:%s:%s" % (rec.get("checker"), code, opn)
 
 
+def with_vouch(res, workdir):
+    """C07: 'safe only if the trusted peer has announced or sent it' - the mark that stands for that is set by nobody else"""
+    vf, vn = vouch_failures(workdir)
+    res = dict(res)
+    res["failures"] = list(res["failures"]) + vf
+    res["evaluations"] = res.get("evaluations", 0) + vn
+    res["coverage"] = dict(res.get("coverage", {}), vouching_scenarios=vn)
+    return res
+
+
+def vouch_failures(workdir):
+    """The mempool's trusted mark of a transaction - the input of the safe decision (C07) and what an untrusted peer must
+    not be able to set (C12): whatever untrusted connections announce, deliver and re-check (their own tracker checks
+    included), only the trusted connection sets it (harness component tracker: real Node / UntrustedNode objects)."""
+    failures = []
+    vcases = []
+    for nconn, script in ((2, [["inv", 1, 1], ["inv", 1, 1], ["body", 1, 0], ["check", 1], ["istrusted", 1], ["advance", 4000], ["check", 1], ["istrusted", 1]]),
+                          (3, [["inv", 1, 1], ["inv", 2, 1], ["inv", 2, 1], ["check", 2], ["body", 1, 0], ["check", 1], ["check", 2], ["istrusted", 1],
+                               ["advance", 3500], ["inv", 1, 2], ["inv", 2, 2], ["advance", 3500], ["check", 2], ["check", 1], ["istrusted", 2]]),
+                          (3, [["inv", 1, 1], ["inv", 2, 1], ["check", 2], ["istrusted", 1], ["body", 1, 0], ["check", 2], ["istrusted", 1],
+                               ["advance", 3100], ["check", 2], ["check", 1], ["istrusted", 1]]),
+                          (2, [["inv", 1, 1], ["inv", 1, 1], ["body", 1, 0], ["check", 1], ["istrusted", 1], ["inv", 0, 1], ["istrusted", 1]])):
+        vcases.append({"cfg": {"nconn": nconn, "txs": [[1, [9010], 0], [2, [9020], 0]]}, "ops": script})
+    vres, _ = vlib.run_harness("tracker", vcases, workdir, tag="vouch")
+    for ci, (c, tr) in enumerate(zip(vcases, vres)):
+        trusted_announced = set()
+        for i, (o, ob) in enumerate(zip(c["ops"], tr)):
+            if o[0] == "inv" and o[1] == 0:
+                trusted_announced.add(o[2])
+            if o[0] == "body" and o[2] != 0:
+                trusted_announced.add(o[1])
+            if o[0] == "istrusted":
+                want = 1 if o[1] in trusted_announced else 0
+                if list(ob) != [0, want]:
+                    failures.append({"suite": "vouch", "checker": "vouch", "step": i, "cfg": c["cfg"], "ops": c["ops"], "trace": tr,
+                                     "expected": [322], "observed": list(ob),
+                                     "what": "tx %d is marked trusted in the shared mempool although only untrusted connections announced / sent it"
+                                             % o[1] if want == 0 else "tx %d announced by the trusted peer is not marked trusted" % o[1]})
+                    break
+    return failures, len(vcases)
+
+
 def make_spec(pid, title_rule):
     MON = {"flow": "txflow_monitor %d" % DELAY,
            "stale": "txflow_stale_monitor %d" % DELAY,
@@ -516,8 +558,10 @@ def make_spec(pid, title_rule):
         "pid": pid,
         "props_file": "props/%s.v" % pid,
         "suites": suites,
-        "extra": lambda tier, rng, workdir: race_extra(tier, rng, workdir),
-        "keyfn": lambda rc: race_key(rc) if rc.get("suite") == "txflow-race" else keyfn(rc),
+        "extra": (lambda tier, rng, workdir: with_vouch(race_extra(tier, rng, workdir), workdir)) if pid == "C07"
+                 else (lambda tier, rng, workdir: race_extra(tier, rng, workdir)),
+        "keyfn": lambda rc: race_key(rc) if rc.get("suite") == "txflow-race" else
+                 ("vouch:322:%s" % (rc.get("ops") or [["?"]])[rc.get("step", 0)][0] if rc.get("suite") == "vouch" else keyfn(rc)),
         "trusted_base": [
             "Coq 8.16.1 kernel (coqc); vm_compute for evaluating model and monitors on the cases; no native_compute",
             "axioms: none declared; Print Assumptions recorded under print_assumptions",
